@@ -4,6 +4,7 @@
   disjointness of the two object graphs, equals, parent, equivalences by position).
 -/
 import Cellml.Clone.Proofs
+import Cellml.Clone.Bridge
 import Cellml.Generated.CloneFields
 namespace Cellml.Props.C11
 open Cellml.Clone
@@ -114,5 +115,28 @@ theorem clone_fields_as_modelled :
         ("Model", ["addComponent", "addUnits", "clone", "component", "componentCount", "setEncapsulationId", "setId", "setName", "variable"]),
         ("ImportSource", ["setId", "setModel", "setUrl"])] := by
   decide +kernel
+
+end Cellml.Props.C11
+
+namespace Cellml.Props.C11
+open Cellml.Clone
+
+/-! ### "… and which equals the original": the clone read by the model of `equals()` (C10) -/
+
+/-- C11-4: the clone of a units / a variable equals the original (both directions, `equals` being symmetric:
+    `Props.C10.C10_units_equivalence`); `toEq*` forgets object identity only (`Clone/Bridge.lean`) -/
+theorem C11_units_equals (e : Nat) (u : Units) :
+    Equals.eqUnits (toEqUnits (cloneUnits true e u)) (toEqUnits u) = true := by
+  rw [← toEqUnits_e (cloneUnits true e u), eUnits_clone true e u, toEqUnits_e]
+  exact (Equals.eqUnits_iff _ _).mpr (Equals.IsoUnits.refl _)
+
+theorem C11_variable_equals (e : Nat) (v : Variable) :
+    Equals.eqVariable (toEqVariable (cloneVariable true e v)) (toEqVariable v) = true := by
+  rw [← toEqVariable_e (cloneVariable true e v), eVariable_clone true e v, toEqVariable_e]
+  exact (Equals.eqVariable_iff _ _).mpr (Equals.IsoVariable.refl _)
+
+/-- non-vacuity: the bridge keeps every attribute `equals()` reads (a changed prefix is seen through it) -/
+example : Equals.eqUnits (toEqUnits ⟨1, "i", "u", ⟨none, ""⟩, [⟨"metre", "kilo", "", "1", "1"⟩]⟩)
+    (toEqUnits ⟨2, "i", "u", ⟨none, ""⟩, [⟨"metre", "milli", "", "1", "1"⟩]⟩) = false := by decide
 
 end Cellml.Props.C11
